@@ -26,6 +26,7 @@ func (h *NtfnsHandler) VerifProcessTx(tx *wire.MsgTx) error { return h.proccessR
 // VerifStartWorkerOnly starts the real background worker goroutine alone; the caller then plays
 // the handler's select loop through VerifProcessBlock / VerifProcessTx / VerifServeSuspend.
 func (h *NtfnsHandler) VerifStartWorkerOnly() {
+	h.initTasks()
 	h.quitWg.Add(1)
 	go worker(h)
 }
